@@ -203,3 +203,23 @@ Example c07_scrip_repaired_nonvacuous :
     /\ c07_positions (dc_lon d) (dc_lat d) (dc_fnc d)
        = [[(10, 7); (30, 5); (20, 6); (40, 5)]; [(20, 6); (40, 5); (50, 9)]].
 Proof. do 2 eexists. repeat split; vm_compute; reflexivity. Qed.
+
+(* instantiated at the code as it is *)
+Corollary c07_scrip_roundtrip_faithful m t lon lat :
+  std_table m t ->
+  Forall (fun r => corners r <> [] /\
+                   Forall (fun i => 0 <= i < Z.of_nat (length lon)) (corners r) /\
+                   NoDup (map (c07_pos lon lat) (corners r))) t ->
+  exists c d, c07_encode_scrip (vr_scrip_pad c07_faithful) t lon lat = Some c /\
+    c07_read_scrip (vr_scrip_pad c07_faithful) true c = Some d /\
+    c07_positions (dc_lon d) (dc_lat d) (dc_fnc d) = c07_positions lon lat t /\
+    length (dc_fnc d) = length t.
+Proof. exact (c07_scrip_repaired_roundtrip m t lon lat). Qed.
+
+(* before /repo 5e414c62 a padded row made the encoder index with the fill value *)
+Lemma c07_scrip_mixed_before_fix_refuted :
+  exists t lon lat, std_tableb 4 t = true /\
+    c07_encode_scrip (vr_scrip_pad c07_before_fixes) t lon lat = None.
+Proof.
+  exists [[0; 1; 2; 3]; [2; 3; 4; FILL]], [0; 1; 2; 3; 4], [5; 6; 7; 8; 9]. split; vm_compute; reflexivity.
+Qed.
